@@ -1,5 +1,7 @@
 package ion
 
+import "math/big"
+
 // refBinDecode: a decoder for Ion 1.0 binary written from the specification
 // (amzn.github.io/ion-docs/docs/binary.html, symbols.html) and sharing no code with ion-go. It turns the bytes of a
 // stream (version marker included) into a flat list of events with payloads and tracks the symbol context
@@ -709,8 +711,11 @@ func rIntMatches(x rEv, g vEv) bool {
 		}
 		return false
 	}
-	gb := g.big.Bytes()
-	return (g.big.Sign() < 0) == x.neg && vSameBytes(gb, m)
+	want := new(big.Int).SetBytes(m) // big-endian magnitude per the math/big documentation
+	if x.neg {
+		want.Neg(want)
+	}
+	return g.big.Cmp(want) == 0
 }
 
 // rMatches compares head and payload of one event. Timestamps are compared by rTsMatches separately.
@@ -765,9 +770,18 @@ func rDecMatches(x rEv, g vEv) bool {
 	if int64(exp) != x.dexp {
 		return false
 	}
-	m := rStripZeros(x.mag)
-	if len(m) == 0 {
+	zero := true
+	for _, c := range x.mag {
+		if c != 0 {
+			zero = false
+		}
+	}
+	if zero {
 		return coef.Sign() == 0 && g.dec.isNegZero == x.neg
 	}
-	return !g.dec.isNegZero && (coef.Sign() < 0) == x.neg && vSameBytes(coef.Bytes(), m)
+	want := new(big.Int).SetBytes(x.mag)
+	if x.neg {
+		want.Neg(want)
+	}
+	return !g.dec.isNegZero && coef.Cmp(want) == 0
 }
